@@ -30,6 +30,7 @@ def _dyadic(draw, tier):
     c["mrts_type"] = draw(st.sampled_from([None, None, "int", "np.int64", "np.float32",
                                            "np.float64"]))
     c["domain"] = "dyadic"
+    c["prime"] = draw(st.sampled_from([None, None, None, "wider", "same"]))
     q, k0, n = g["q"], g["k0"], g["n"]
     ev = sorted(set([0, n] + [s for tr in g["trains"] for s in tr]))
     pts = draw(st.lists(st.one_of(st.integers(0, 2 * n),
@@ -114,6 +115,7 @@ def run_case(case, ctx):
     ctx.set_backend(case["compiled"])
     tol = ps.tol_of(case)
     st1, st2 = ps.trains(case)
+    ps.prime(ctx, case, (st1, st2), (pyspike.spike_profile, pyspike.spike_distance))
     (a, b), T0, T1 = ps.fr_trains(case)
     m = ps.mrts_exact(case)
     ri = bool(case["ri"])
